@@ -108,7 +108,7 @@ def print_decl(t, name):
 # ---------------------------------------------------------------------------
 # generators
 
-SIZES = [(), ('3',), ('N',), ('N', '+', '1'), ('sizeof', '(', 'X', ')'), ('K', '[', '2', ']'), ('(', 'N', ')', '*', '2')]
+SIZES = [(), ('3',), ('N',), ('N', '+', '1'), ('sizeof', '(', 'X', ')'), ('K', '<<', '2'), ('(', 'N', ')', '*', '2')]
 BASES = ['void', 'Foo', 'Bar', 'T']
 
 
@@ -185,7 +185,7 @@ def rand_type(rng, depth, names=None, pdepth=2):
                         p = rand_type(rng, max(0, depth - 2), pdepth=pdepth - 1)
                         if var_ok(p):
                             break
-                    ps.append((p, rng.choice([None, 'a%d' % i, 'p'])))
+                    ps.append((p, rng.choice([None, 'a%d' % i, 'p', '_q', 'r_'])))
             t = apply_layer(t, l, ps, rng.random() < 0.2)
         else:
             t = apply_layer(t, l)
